@@ -18,6 +18,7 @@ P(c) == PrintT(<<"CASE", ToJson(c)>>)
 \* ---- shape classes
 ShapeOfTy(ty) == CASE ty = "M" -> <<2, 3>> [] ty = "Mt" -> <<3, 2>> [] ty = "M4" -> <<4, 3>> [] ty = "F" -> <<1, 6>>
                    [] ty = "X3" -> <<2, 1, 3>> [] ty = "Y4" -> <<2, 1, 1, 3>> [] ty = "H3" -> <<1, 1, 3>>
+                   [] ty = "X1" -> <<1, 2, 3>> [] ty = "Y1" -> <<1, 1, 2, 3>> [] ty = "H1" -> <<1, 2, 3>>     \* one time step, batch 2
 
 \* ---- initializers (weights); "d" is also declared as a graph input
 W33 == T("f32", <<3, 3>>, <<1, -1, 2, 0, 1, -2, 3, 1, 0>>)
@@ -25,13 +26,15 @@ C3  == T("f32", <<3>>, <<10, 20, 30>>)
 Shp == T("i64", <<2>>, <<2, 3>>)
 Ax1 == T("i64", <<1>>, <<1>>)
 Ax12 == T("i64", <<2>>, <<1, 2>>)
+Ax0 == T("i64", <<1>>, <<0>>)
+Ax01 == T("i64", <<2>>, <<0, 1>>)
 St1 == T("i64", <<1>>, <<1>>)
 En3 == T("i64", <<1>>, <<3>>)
 Dd  == Iota("f32", <<2, 3>>, 50)
 \* recurrent weights: small integers, distinct per gate block; relu activations keep everything exact
 RW(G, width, salt) == T("f32", <<1, G * 3, width>>, [n \in 1..(G * 3 * width) |-> ((n * 5 + salt) % 3) - 1])
 RB(G, salt) == T("f32", <<1, 2 * G * 3>>, [n \in 1..(2 * G * 3) |-> ((n * 2 + salt) % 3) - 1])
-Inits == [w33 |-> W33, c3 |-> C3, shp |-> Shp, ax1 |-> Ax1, ax12 |-> Ax12, st1 |-> St1, en3 |-> En3, d |-> Dd,
+Inits == [w33 |-> W33, c3 |-> C3, shp |-> Shp, ax1 |-> Ax1, ax12 |-> Ax12, ax0 |-> Ax0, ax01 |-> Ax01, st1 |-> St1, en3 |-> En3, d |-> Dd,
           gw |-> RW(3, 3, 0), gr |-> RW(3, 3, 1), gb |-> RB(3, 2),
           lw |-> RW(4, 3, 2), lr |-> RW(4, 3, 0), lb |-> RB(4, 1),
           rw |-> RW(1, 3, 1), rr |-> RW(1, 3, 2)]
@@ -58,7 +61,14 @@ Templates ==
     Tpl("GRU", <<AI("hidden_size", 3), ASs("activations", <<"relu", "relu">>)>>, <<"X3", "=gw", "=gr", "", "", "H3">>, <<"", "H3">>),             \* first output skipped, B and sequence_lens skipped
     Tpl("LSTM", <<AI("hidden_size", 3), ASs("activations", <<"relu", "relu", "relu">>)>>, <<"X3", "=lw", "=lr", "=lb">>, <<"Y4", "H3", "H3">>),
     Tpl("LSTM", <<AI("hidden_size", 3), ASs("activations", <<"relu", "relu", "relu">>)>>, <<"X3", "=lw", "=lr">>, <<"Y4", "", "H3">>),               \* middle output skipped
-    Tpl("RNN", <<AI("hidden_size", 3), ASs("activations", <<"relu">>)>>, <<"X3", "=rw", "=rr">>, <<"Y4", "H3">>)}
+    Tpl("RNN", <<AI("hidden_size", 3), ASs("activations", <<"relu">>)>>, <<"X3", "=rw", "=rr">>, <<"Y4", "H3">>),
+    \* sequences of ONE step (batch 2): Y and Y_h hold the same values in different shapes
+    Tpl("Unsqueeze", <<>>, <<"M", "=ax0">>, <<"X1">>),
+    Tpl("Squeeze", <<>>, <<"Y1", "=ax01">>, <<"M">>),
+    Tpl("Squeeze", <<>>, <<"H1", "=ax0">>, <<"M">>),
+    Tpl("LSTM", <<AI("hidden_size", 3), ASs("activations", <<"relu", "relu", "relu">>)>>, <<"X1", "=lw", "=lr", "=lb">>, <<"Y1", "H1", "H1">>),
+    Tpl("GRU", <<AI("hidden_size", 3), ASs("activations", <<"relu", "relu">>)>>, <<"X1", "=gw", "=gr", "=gb">>, <<"Y1", "H1">>),
+    Tpl("RNN", <<AI("hidden_size", 3), ASs("activations", <<"relu">>)>>, <<"X1", "=rw", "=rr">>, <<"Y1", "H1">>)}
 
 \* ---- scope: sequence of [name, ty]; graph inputs a, b : M and d : M (also an initializer)
 Scope0 == <<[name |-> "a", ty |-> "M"], [name |-> "b", ty |-> "M"], [name |-> "d", ty |-> "M"]>>
